@@ -208,14 +208,30 @@ impl<K, V, A: Allocator> CaoHashMap<K, V, A> {
     {
         debug_assert!(h != 0, "Bad handle, 0 values are reserved");
 
+        let i = self.find_ind(h, &key);
+        // grow before touching the buckets, so that a failed allocation leaves the map unchanged,
+        // and no grow is triggered if the key overrides an existing value
+        if self.hashes()[i] == 0 && Self::needs_grow(self.count + 1, self.capacity) {
+            self.grow()?;
+        }
+        self.insert_no_grow(h, key, value);
+        Ok(())
+    }
+
+    /// # Safety
+    /// Caller must ensure that the hash is correct for the key and that there will be at least
+    /// one empty bucket left after the insertion
+    unsafe fn insert_no_grow(&mut self, h: u64, key: K, value: V)
+    where
+        K: Eq,
+    {
         // find the bucket
-        let hashes = self.hashes();
         let keys = self.keys.as_ptr();
         let values = self.values.as_ptr();
 
         let i = self.find_ind(h, &key);
-        if hashes[i] != 0 {
-            debug_assert_eq!(hashes[i], h);
+        if self.hashes()[i] != 0 {
+            debug_assert_eq!(self.hashes()[i], h);
             // delete the old entry
             if std::mem::needs_drop::<K>() {
                 std::ptr::drop_in_place(keys.add(i));
@@ -229,11 +245,6 @@ impl<K, V, A: Allocator> CaoHashMap<K, V, A> {
         }
         std::ptr::write(keys.add(i), key);
         std::ptr::write(values.add(i), value);
-        // delaying grow so that no grow is triggered if the key overrides an existing value
-        if Self::needs_grow(self.count, self.capacity) {
-            self.grow()?;
-        }
-        Ok(())
     }
 
     fn needs_grow(count: usize, capacity: usize) -> bool {
@@ -273,7 +284,9 @@ impl<K, V, A: Allocator> CaoHashMap<K, V, A> {
             if hash != 0 {
                 let key = std::ptr::read(keys.as_ptr().add(i));
                 let val = std::ptr::read(values.as_ptr().add(i));
-                self.insert_with_hint(hash, key, val)?;
+                // the new storage is larger than the old one: no growth is needed (or allowed,
+                // an error here would lose the entries that were not moved yet)
+                self.insert_no_grow(hash, key, val);
             }
         }
 
